@@ -41,8 +41,11 @@ func checkC15(c *Ctx) {
 		ok = false
 		for _, t := range nilTests(f) {
 			for _, fm := range finds {
-				if flowsFrom(t.X, func(v ssa.Value) bool { return v == fm.Value() }) && (edgeDominates(t.If.Block(), t.OnNil, execs[0].Block()) || t.OnNil.Dominates(execs[0].Block())) {
-					ok = true
+				if flowsFrom(t.X, func(v ssa.Value) bool { return v == fm.Value() }) {
+					// the execution is reachable only through the 'not loaded' edge
+					if reachableAvoidingE(f.Blocks[0], 0, func(x ssa.Instruction) bool { return x == ssa.Instruction(execs[0]) }, nil, nil, map[cfgEdge]bool{{t.If.Block(), t.OnNil}: true}) == nil {
+						ok = true
+					}
 				}
 			}
 		}
